@@ -56,12 +56,23 @@ def _msg_class(msg: str) -> str:
     return re.sub(r"\s+", " ", m).strip()[:60]
 
 
+def _declared(op, key) -> bool:
+    from xdsl.irdl import IRDLOperation
+    if not isinstance(op, IRDLOperation):
+        return True
+    d = type(op).get_irdl_definition()
+    return key in d.properties or key in d.attributes
+
+
 def culprit_key(name: str, s: dict, op=None) -> str:
     sym = s["symptom"]
     if sym == "canon-differs":
         k = f"custom:{name}:{s.get('component')}"
         if "key" in s:
-            k += f":{s['key']}:{s.get('detail')}"
+            akey = s["key"]
+            if op is not None and not _declared(op, akey):
+                akey = "<discardable>"  # attribute the op does not declare: the name is the harness' choice, not a mechanism
+            k += f":{akey}:{s.get('detail')}"
         if s.get("op") != name:
             k += f"@{s.get('op')}"
         return k
